@@ -289,19 +289,21 @@ Print Assumptions C20_run_transparent_spec.
 (* A listener returns, panics, or panics with a payload whose destructor panics. [run_steps g ls steps
    cur acc] COMPUTES how a call path (events emitted, outcome fixed when the inner call returns) ends,
    through the listener invocations made under guard g: a panic escaping an invocation ends the run
-   with FPanic. GCatchDrop = EventListeners::emit as repaired by afefac0 and reconnect's callback helper
-   as repaired by 56b9388 (catch_unwind around the listener AND around the drop of the caught
-   payload). Whatever the listeners do the outcome is the one the call path fixes by itself ... *)
+   with FPanic. GCatchLoop = EventListeners::emit and reconnect's callback helper as repaired by d1b49ff
+   (catch_unwind around the listener; the caught payload, and the payload of every panic raised by
+   dropping one, is dropped under catch_unwind, 16 levels deep, the rest leaked): [Bombs d] is a payload
+   nested d levels deep, for ANY d. Whatever the listeners do the outcome is the one the call path
+   fixes by itself ... *)
 Theorem C20_listeners_cannot_change_outcome :
   forall (ls : list listener) (steps : list lstep) (cur : final),
-    fst (run_steps GCatchDrop ls steps cur []) = final_of steps cur.
+    fst (run_steps GCatchLoop ls steps cur []) = final_of steps cur.
 Proof. exact listeners_cannot_change_outcome. Qed.
 Print Assumptions C20_listeners_cannot_change_outcome.
 
 (* ... every listener is handed every event whatever the others did with it ... *)
 Theorem C20_every_listener_gets_every_event :
   forall (ls : list listener) (steps : list lstep) (cur : final),
-    snd (run_steps GCatchDrop ls steps cur []) = deliveries_of ls steps /\
+    snd (run_steps GCatchLoop ls steps cur []) = deliveries_of ls steps /\
     (forall ev, In (SEmit ev) steps -> In (ev, map (fun l => l ev) ls) (deliveries_of ls steps)) /\
     (forall ev i l, nth_error ls i = Some l -> nth_error (map (fun l => l ev) ls) i = Some (l ev)).
 Proof. exact every_listener_gets_every_event. Qed.
@@ -311,7 +313,7 @@ Print Assumptions C20_every_listener_gets_every_event.
 Theorem C20_per_kind_counts :
   forall (ls : list listener) (steps : list lstep) (cur : final) (i : nat) (l : listener) (ev : Z),
     nth_error ls i = Some l -> (forall e, l e <> Skipped) ->
-    count_kind i ev (snd (run_steps GCatchDrop ls steps cur [])) = Z.of_nat (emits ev steps).
+    count_kind i ev (snd (run_steps GCatchLoop ls steps cur [])) = Z.of_nat (emits ev steps).
 Proof. exact per_kind_counts. Qed.
 Print Assumptions C20_per_kind_counts.
 
@@ -323,7 +325,7 @@ Theorem C20_bare_callbacks_refuted :
   fst (run_steps GBare ls steps (FOut 0 0) []) = FPanic /\
   final_of steps (FOut 0 0) = FOut 0 70 /\
   count_kind 1 0 (snd (run_steps GBare ls steps (FOut 0 0) [])) = 0 /\
-  count_kind 1 0 (snd (run_steps GCatchDrop ls steps (FOut 0 0) [])) = 1.
+  count_kind 1 0 (snd (run_steps GCatchLoop ls steps (FOut 0 0) [])) = 1.
 Proof. exact bare_callbacks_refuted. Qed.
 Print Assumptions C20_bare_callbacks_refuted.
 
@@ -333,17 +335,29 @@ Print Assumptions C20_bare_callbacks_refuted.
 Theorem C20_payload_dropped_outside_refuted :
   let steps := [SEmit 0; SOut 0 70] in
   fst (run_steps GCatch [(fun _ => Panics); (fun _ => Returns)] steps (FOut 0 0) []) = FOut 0 70 /\
-  fst (run_steps GCatch [(fun _ => Bombs); (fun _ => Returns)] steps (FOut 0 0) []) = FPanic /\
-  count_kind 1 0 (snd (run_steps GCatch [(fun _ => Bombs); (fun _ => Returns)] steps (FOut 0 0) [])) = 0 /\
-  fst (run_steps GCatchDrop [(fun _ => Bombs); (fun _ => Returns)] steps (FOut 0 0) []) = FOut 0 70 /\
-  count_kind 1 0 (snd (run_steps GCatchDrop [(fun _ => Bombs); (fun _ => Returns)] steps (FOut 0 0) [])) = 1.
+  fst (run_steps GCatch [(fun _ => Bombs 1); (fun _ => Returns)] steps (FOut 0 0) []) = FPanic /\
+  count_kind 1 0 (snd (run_steps GCatch [(fun _ => Bombs 1); (fun _ => Returns)] steps (FOut 0 0) [])) = 0 /\
+  fst (run_steps GCatchDrop [(fun _ => Bombs 1); (fun _ => Returns)] steps (FOut 0 0) []) = FOut 0 70 /\
+  count_kind 1 0 (snd (run_steps GCatchDrop [(fun _ => Bombs 1); (fun _ => Returns)] steps (FOut 0 0) [])) = 1.
 Proof. exact payload_dropped_outside_refuted. Qed.
 Print Assumptions C20_payload_dropped_outside_refuted.
+
+(* ... and a guard that contains ONE level of payload drop only (emit after afefac0, observe after
+   56b9388, before d1b49ff): a payload nested two levels deep escapes; the bounded drop loop contains
+   every depth. *)
+Theorem C20_nested_payload_refuted :
+  let steps := [SEmit 0; SOut 0 70] in
+  fst (run_steps GCatchDrop [(fun _ => Bombs 2); (fun _ => Returns)] steps (FOut 0 0) []) = FPanic /\
+  count_kind 1 0 (snd (run_steps GCatchDrop [(fun _ => Bombs 2); (fun _ => Returns)] steps (FOut 0 0) [])) = 0 /\
+  (forall d, fst (run_steps GCatchLoop [(fun _ => Bombs d); (fun _ => Returns)] steps (FOut 0 0) []) = FOut 0 70 /\
+             count_kind 1 0 (snd (run_steps GCatchLoop [(fun _ => Bombs d); (fun _ => Returns)] steps (FOut 0 0) [])) = 1).
+Proof. exact nested_payload_refuted. Qed.
+Print Assumptions C20_nested_payload_refuted.
 
 (* Trace level, mode 4 (listeners on every layer of a stack, what run_script executes): the whole
    trace -- outcomes, absolute per-layer / per-listener / per-event-kind counts, the counts of the
    reference run -- of EVERY script and EVERY panic mask (ordinary payloads: bits 0..3, payloads whose
-   Drop panics: bits 4..7) is the trace of the same script with no panicking listener, and its outcome
+   Drop panics: bits 4..7, nested ones: bits 8..11) is the trace of the same script with no panicking listener, and its outcome
    part is the transparent one. *)
 Theorem C20_l4_trace_mask_independent :
   forall (ids : list Z) (nl : nat) (mask : Z) (reqs : list (Z * Z * Z)),
